@@ -193,6 +193,45 @@ def c08(ctx):
     finally:
         import shutil
         shutil.rmtree(td, ignore_errors=True)
+    # 5. entry objects that are written, edited in place and written again: the second text is that of the edited entries
+    import io
+    import datetime
+    k = 0
+    for _ in range(600 if quick else 8000):
+        es = [T.rentry(r) for _ in range(r.randint(1, 4))]
+        objs = [impl.sx_entry(x) for x in es]
+        m = gm.ManifestFile()
+        m.entries = objs
+        m.dump(io.StringIO(), sign_openpgp=False)
+        es2 = []
+        for x, o in zip(es, objs):
+            y = T.rentry(r)
+            while y[0] != x[0] or (x[0] == 'file' and (y[1] == 'AUX') != (x[1] == 'AUX')) or (x[0] == 'file' and (y[1] == 'DIST') != (x[1] == 'DIST')):
+                y = T.rentry(r)
+            if x[0] == 'ts':
+                o.ts = datetime.datetime(*y[1])
+                es2.append(y)
+            elif x[0] == 'ign':
+                o.path = y[1]
+                es2.append(y)
+            else:
+                o.path = y[2]
+                if x[1] == 'AUX':
+                    o.aux_path = y[3]
+                o.size = y[4]
+                o.checksums = {a: b for a, b in y[5]}
+                es2.append(['file', x[1], y[2], y[3], y[4], y[5]])
+        f2 = io.StringIO()
+        m.dump(f2, sign_openpgp=False)
+        fresh = gm.ManifestFile()
+        fresh.entries = [impl.sx_entry(y) for y in es2]
+        f3 = io.StringIO()
+        fresh.dump(f3, sign_openpgp=False)
+        k += 1
+        if f2.getvalue() != f3.getvalue():
+            ctx.violation('spec', 'entries edited in place after a first dump are not written as they are now',
+                          {'entries_at_first_dump': es, 'entries_now': es2, 'written': f2.getvalue()[:400], 'expected': f3.getvalue()[:400]})
+    ctx.count('text:rewrite-after-edit', k, k)
 
 
 def c09(ctx):
